@@ -1,5 +1,5 @@
 (* Proofs/Lazy.v — C19: @lazy binding, and the witnesses of what the code before the fix got wrong. *)
-From Coq Require Import ZArith String List Bool Arith Lia.
+From Coq Require Import ZArith String List Bool Arith Lia Ascii.
 From JMCV Require Import Base.Dec Model.StrOps Model.Hardcode Model.Lazy.
 Import ListNotations.
 Close Scope Z_scope.
@@ -87,3 +87,179 @@ Proof.
   rewrite Hlen, Nat.ltb_irrefl.
   rewrite bind_loop_positional; auto.
 Qed.
+
+(* ------------------------------------------------------------------ general binding (strengthening round 1) *)
+
+Lemma kw_get_some_in p kw v : kw_get p kw = Some v -> In p (map fst kw).
+Proof.
+  induction kw as [|[k w] kw IH]; cbn; [discriminate|].
+  destruct (String.eqb p k) eqn:E; intros H.
+  - apply String.eqb_eq in E. now left.
+  - right. now apply IH.
+Qed.
+
+Lemma kw_get_none_notin p kw : kw_get p kw = None -> ~ In p (map fst kw).
+Proof.
+  induction kw as [|[k w] kw IH]; cbn; [tauto|].
+  destruct (String.eqb p k) eqn:E; intros H; [discriminate|].
+  apply String.eqb_neq in E. intros [H1 | H1]; [congruence | now apply IH].
+Qed.
+
+Lemma kw_del_keys p kw k :
+  In k (map fst (kw_del p kw)) -> In k (map fst kw).
+Proof.
+  induction kw as [|[k' w] kw IH]; cbn; [tauto|].
+  destruct (String.eqb p k') eqn:E; cbn; intros H.
+  - now right.
+  - destruct H as [H | H]; [now left | right; now apply IH].
+Qed.
+
+Lemma kw_del_nodup p kw : NoDup (map fst kw) -> NoDup (map fst (kw_del p kw)).
+Proof.
+  induction kw as [|[k' w] kw IH]; cbn; intros H; [constructor|].
+  inversion H as [|? ? Hn Hd]; subst.
+  destruct (String.eqb p k') eqn:E; cbn; [exact Hd|].
+  constructor; [|now apply IH].
+  intros Hin. apply Hn. now apply kw_del_keys in Hin.
+Qed.
+
+Lemma kw_del_removes p kw : NoDup (map fst kw) -> ~ In p (map fst (kw_del p kw)).
+Proof.
+  induction kw as [|[k' w] kw IH]; cbn; intros H; [tauto|].
+  inversion H as [|? ? Hn Hd]; subst.
+  destruct (String.eqb p k') eqn:E; cbn.
+  - apply String.eqb_eq in E. now subst.
+  - apply String.eqb_neq in E. intros [H1 | H1]; [congruence | now apply IH].
+Qed.
+
+Lemma kw_get_del_other p q kw : q <> p -> kw_get q (kw_del p kw) = kw_get q kw.
+Proof.
+  intros Hne. induction kw as [|[k' w] kw IH]; cbn; [reflexivity|].
+  destruct (String.eqb p k') eqn:E; cbn.
+  - apply String.eqb_eq in E. subst k'.
+    destruct (String.eqb q p) eqn:E2; [apply String.eqb_eq in E2; congruence | reflexivity].
+  - destruct (String.eqb q k'); [reflexivity | exact IH].
+Qed.
+
+Lemma expected_bind_ext ps : forall i pos kw1 kw2,
+  (forall q, In q ps -> kw_get q kw1 = kw_get q kw2) ->
+  expected_bind i ps pos kw1 = expected_bind i ps pos kw2.
+Proof.
+  induction ps as [|p ps IH]; intros i pos kw1 kw2 H; cbn; [reflexivity|].
+  rewrite (H p) by now left. f_equal. apply IH. intros q Hq. apply H. now right.
+Qed.
+
+Lemma bind_loop_general pos : forall ps i kw acc,
+  NoDup ps -> NoDup (map fst kw) ->
+  (forall k, In k (map fst kw) -> In k ps) ->
+  (forall p, In p ps -> ~ In p (map fst acc)) ->
+  (forall j p, nth_error ps j = Some p -> kw_get p kw = None -> i + j < length pos) ->
+  bind_loop i ps pos kw acc = BOk (acc ++ expected_bind i ps pos kw).
+Proof.
+  induction ps as [|p ps IH]; intros i kw acc Hnd Hkd Hsub Hfresh Hidx.
+  - cbn. destruct kw as [|[k w] kw].
+    + cbn. now rewrite app_nil_r.
+    + exfalso. apply (Hsub k). now left.
+  - inversion Hnd as [|? ? Hnotin Hnd']; subst.
+    cbn [bind_loop expected_bind].
+    destruct (kw_get p kw) as [v|] eqn:Eg.
+    + rewrite dict_set_fresh by (apply Hfresh; now left).
+      rewrite IH.
+      * rewrite <- app_assoc. cbn [app]. do 3 f_equal.
+        apply expected_bind_ext. intros q Hq. apply kw_get_del_other. intros ->. contradiction.
+      * exact Hnd'.
+      * now apply kw_del_nodup.
+      * intros k Hk. pose proof (kw_del_removes p kw Hkd) as Hrm.
+        destruct (Hsub k (kw_del_keys _ _ _ Hk)) as [<- | Hin]; [contradiction | exact Hin].
+      * intros q Hq. rewrite map_app, in_app_iff. cbn. intros [H | [H | []]].
+        -- apply (Hfresh q); [now right | exact H].
+        -- subst. contradiction.
+      * intros j q Hj Hn. rewrite kw_get_del_other in Hn by (intros ->; apply nth_error_In in Hj; contradiction).
+        specialize (Hidx (S j) q Hj Hn). lia.
+    + assert (Hlt : i < length pos) by (specialize (Hidx 0 p eq_refl Eg); lia).
+      destruct (nth_error pos i) as [v|] eqn:En; [|apply nth_error_None in En; lia].
+      rewrite (nth_error_nth _ _ _ En).
+      rewrite dict_set_fresh by (apply Hfresh; now left).
+      rewrite IH.
+      * now rewrite <- app_assoc.
+      * exact Hnd'.
+      * exact Hkd.
+      * intros k Hk. destruct (Hsub k Hk) as [<- | Hin]; [|exact Hin].
+        exfalso. exact (kw_get_none_notin _ _ Eg Hk).
+      * intros q Hq. rewrite map_app, in_app_iff. cbn. intros [H | [H | []]].
+        -- apply (Hfresh q); [now right | exact H].
+        -- subst. contradiction.
+      * intros j q Hj Hn. specialize (Hidx (S j) q Hj Hn). lia.
+Qed.
+
+Lemma bind_general :
+  forall params pos kw,
+    NoDup params -> NoDup (map fst kw) ->
+    length pos <= length params ->
+    (forall k, In k (map fst kw) -> In k params) ->
+    (forall j p, nth_error params j = Some p -> kw_get p kw = None -> j < length pos) ->
+    bind params pos kw = BOk (expected_bind 0 params pos kw).
+Proof.
+  intros params pos kw Hnd Hkd Hlen Hsub Hidx. unfold bind.
+  destruct (length params <? length pos) eqn:E; [apply Nat.ltb_lt in E; lia|].
+  rewrite bind_loop_general; auto.
+Qed.
+
+(* ------------------------------------------------------------------ argument text *)
+
+Lemma arg_text_form_independent :
+  forall toks, arg_text HRepaired true toks = arg_text HRepaired false toks.
+Proof. intros toks. reflexivity. Qed.
+
+Lemma arg_text_pinned_refuted :
+  exists toks, arg_text HPinned true toks <> arg_text HPinned false toks /\
+               arg_text HPinned false toks <> arg_text HRepaired false toks.
+Proof.
+  exists [AFunc "(i)" "{ say ""$i""; }"]%string. split; vm_compute; discriminate.
+Qed.
+
+Lemma arg_text_string : forall m kw s, arg_text m kw [AStr false s] = py_repr s.
+Proof.
+  intros m kw s. unfold arg_text, arg_text_gen. cbn.
+  destruct m; cbn; now rewrite ?append_empty_r.
+Qed.
+
+(* the literal written for a string argument reads back as the same string *)
+Lemma unquote_repr_body q s :
+  q = SQ \/ q = DQ ->
+  unquote_body q (repr_body q s ++ String q EmptyString) = Some s.
+Proof.
+  intros Hq. induction s as [|c r IH].
+  - cbn. rewrite Ascii.eqb_refl. reflexivity.
+  - cbn [repr_body].
+    destruct (Ascii.eqb c BS) eqn:E1.
+    { apply Ascii.eqb_eq in E1. subst c.
+      destruct Hq as [-> | ->]; cbn; cbn in IH; rewrite IH; reflexivity. }
+    destruct (Ascii.eqb c q) eqn:E2.
+    { apply Ascii.eqb_eq in E2. subst c.
+      destruct Hq as [-> | ->]; cbn; cbn in IH; rewrite IH; reflexivity. }
+    destruct (Ascii.eqb c "010"%char) eqn:E3.
+    { apply Ascii.eqb_eq in E3. subst c.
+      destruct Hq as [-> | ->]; cbn; cbn in IH; rewrite IH; reflexivity. }
+    destruct (Ascii.eqb c "009"%char) eqn:E4.
+    { apply Ascii.eqb_eq in E4. subst c.
+      destruct Hq as [-> | ->]; cbn; cbn in IH; rewrite IH; reflexivity. }
+    destruct (Ascii.eqb c "013"%char) eqn:E5.
+    { apply Ascii.eqb_eq in E5. subst c.
+      destruct Hq as [-> | ->]; cbn; cbn in IH; rewrite IH; reflexivity. }
+    cbn [append unquote_body]. rewrite E2, E3, E1. rewrite IH. reflexivity.
+Qed.
+
+Lemma py_unquote_repr : forall s, py_unquote (py_repr s) = Some s.
+Proof.
+  intros s. unfold py_repr, py_unquote.
+  assert (Hq : repr_quote s = SQ \/ repr_quote s = DQ).
+  { unfold repr_quote. destruct (contains_char SQ s && negb (contains_char DQ s)); auto. }
+  destruct Hq as [Hq | Hq]; rewrite Hq; cbn [Ascii.eqb orb];
+    [change (Ascii.eqb SQ SQ) with true | change (Ascii.eqb DQ SQ || Ascii.eqb DQ DQ) with true]; cbn [orb];
+    apply unquote_repr_body; auto.
+Qed.
+
+Lemma lazy_string_argument_roundtrip :
+  forall m kw s, py_unquote (arg_text m kw [AStr false s]) = Some s.
+Proof. intros. rewrite arg_text_string. apply py_unquote_repr. Qed.
